@@ -1,4 +1,4 @@
-from typing import Dict, Optional
+from typing import Dict, List, Optional
 
 from . import ast
 from .grammar import ODataLexer, ODataParser  # type: ignore
@@ -38,19 +38,49 @@ class AliasRewriter(NodeTransformer):
             for k, v in self.field_aliases.items()
         }
 
+        # Lambda variables in scope: these are not fields and shadow aliases.
+        self._lambda_variables: List[ast.Identifier] = []
+
     def visit_Identifier(self, node: ast.Identifier) -> ast._Node:
         """:meta private:"""
+        if node in self._lambda_variables:
+            return node
         if node in self.replacements:
             return self.replacements[node]
         return node
 
     def visit_Attribute(self, node: ast.Attribute) -> ast._Node:
         """:meta private:"""
+        root = node.owner
+        while isinstance(root, ast.Attribute):
+            root = root.owner
+        if root in self._lambda_variables:
+            return node
+
         if node in self.replacements:
             return self.replacements[node]
         else:
             new_owner = self.visit(node.owner)
             return ast.Attribute(new_owner, node.attr)
+
+    def visit_Call(self, node: ast.Call) -> ast._Node:
+        """:meta private:"""
+        # The function name is not a field, only the arguments can be aliases:
+        return ast.Call(node.func, [self.visit(arg) for arg in node.args])
+
+    def visit_NamedParam(self, node: ast.NamedParam) -> ast._Node:
+        """:meta private:"""
+        # The parameter name is not a field, only its value can be an alias:
+        return ast.NamedParam(node.name, self.visit(node.param))
+
+    def visit_Lambda(self, node: ast.Lambda) -> ast._Node:
+        """:meta private:"""
+        self._lambda_variables.append(node.identifier)
+        try:
+            expression = self.visit(node.expression)
+        finally:
+            self._lambda_variables.pop()
+        return ast.Lambda(node.identifier, expression)
 
 
 class IdentifierStripper(NodeTransformer):
